@@ -684,7 +684,16 @@ def fs_reference(hist, impl):
                     want.append(f"k=0/{len(openo)} fired={1 if readable else 0}")
                     continue
                 i = int(it[1])
-                if it[0] == "o":
+                if it[0] == "O":        # Directory objects: slots 3..5
+                    rr = py_resolve(tree, unhx(f[1]), True)
+                    okk = (3 + i) not in openo and rr[0] == "found" and rr[2][0] == "d"
+                    if okk:
+                        openo.add(3 + i)
+                    want.append(f"O={1 if okk else 0}/{len(openo)}")
+                elif it[0] in "CX":
+                    openo.discard(3 + i)
+                    want.append(f"{it[0]}=1/{len(openo)}")
+                elif it[0] == "o":
                     rr = py_resolve(tree, unhx(f[1]), True)
                     okk = i not in openo and rr[0] == "found" and rr[2][0] == "f"
                     if okk:
@@ -884,7 +893,22 @@ def rand_obj_script(rng):
     for _ in range(rng.randrange(2, 10)):
         k = rng.random()
         i = rng.randrange(3)
-        if k < 0.40:
+        if k < 0.14:
+            j = rng.random()
+            if j < 0.5:
+                pth = fs_path(rng, rng.choice(DIRN + DIRN + ["f", "zz", "i", "l"]), allow_out_final=False)
+                its.append(f"O{i}:{hx(pth)}")
+                hit("dir-open-on-open" if 3 + i in openo else "dir-open")
+                openo.add(3 + i)
+            elif j < 0.8:
+                its.append(f"C{i}")
+                hit("dir-close-open" if 3 + i in openo else "dir-close-closed")
+                openo.discard(3 + i)
+            else:
+                its.append(f"X{i}")
+                hit("dir-destroy-open" if 3 + i in openo else "dir-destroy-closed")
+                openo.discard(3 + i)
+        elif k < 0.40:
             pth = fs_path(rng, rng.choice(FILEN + FILEN + ["a", "zz", "i", "m"]), allow_out_final=False)
             fl = rng.choice([1, 1, 5])
             its.append(f"o{i}:{hx(pth)}:{fl}")
@@ -1018,7 +1042,8 @@ FS_SMALL = [f"fscreate {hx(p)}" for p in ["a", "a/f", "a/f/x", "c/b/a", "a/l", "
            ["fsconst -"] + [f"fsobj {sc}" for sc in (
                f"o0:{hx('a/f')}:1,q0,o0:{hx('a/f')}:1,q0,c0,q0,c0", f"o0:{hx('a/f')}:5,o1:{hx('a/f')}:1,o2:{hx('a/b/g')}:1,q1,x1,q1,c0,q2",
                f"o0:{hx('a')}:1,q0,o1:{hx('zz')}:1,o2:{hx('a/l')}:1,o2:{hx('a/b/m')}:1,q2", f"k:{hx('a/f')}:{hx('zz9')}:0,k:{hx('a/f')}:{hx('zz9')}:1",
-               f"o0:{hx('a/f')}:1,k:{hx('a/f')}:{hx('zz9')}:0,q0,k:{hx('a')}:{hx('zz9')}:0,k:{hx('zz')}:{hx('zz9')}:1,x0,q0", "q0,c1,x2,q2")] + [f"fsopenf {hx(p_)} {fl}" for p_ in ("a/f", "a/h", "a", "zz/h") for fl in (1, 2, 6, 7, 14)] + \
+               f"o0:{hx('a/f')}:1,k:{hx('a/f')}:{hx('zz9')}:0,q0,k:{hx('a')}:{hx('zz9')}:0,k:{hx('zz')}:{hx('zz9')}:1,x0,q0", "q0,c1,x2,q2",
+               f"O0:{hx('a')},O0:{hx('a/b')},O1:{hx('a/l')},O2:{hx('a/f')},o0:{hx('a/f')}:1,C0,C0,q0,X1", f"O0:{hx('i')},O1:{hx('zz')},X0,C1,O1:{hx('a/b')}")] + [f"fsopenf {hx(p_)} {fl}" for p_ in ("a/f", "a/h", "a", "zz/h") for fl in (1, 2, 6, 7, 14)] + \
            [f"fscdl {hx(p_)} {n_}" for p_ in ("a/b", "a/l", "zz") for n_ in (0, 4097, 70000)] + \
            [f"fsfile {hx('a/f')} {fl} {sc}" for fl in (1, 3, 6) for sc in ("Z0,Z1,Z2,z,r,Z2,Z3", "s0:1,R2,r,s0:1,R0,R3,S0:2,s1:0", "R1,w41,Z2,w42,s0:0,r")] + \
            [f"fsfile {hx('a/f')} {fl} p2,i,o,f,p9,v,s0:0,r,p0" for fl in (1, 2, 3, 7)]
